@@ -47,7 +47,7 @@ func (fc *FuncCtx) codeEnv(st *State, at token.Pos) *CEnv {
 		}
 		if scope != nil {
 			if _, obj := scope.LookupParent(name, at); obj != nil {
-				if v, ok := obj.(*types.Var); ok {
+				if v, ok := obj.(*types.Var); ok && !(fc.renamed[v] && fc.nameAlias[name] != nil) {
 					if a, ok := st.alias[v]; ok {
 						saved := fc.quiet
 						fc.quiet = true
@@ -61,6 +61,18 @@ func (fc *FuncCtx) codeEnv(st *State, at token.Pos) *CEnv {
 						return fc.readGlobal(st, v), true
 					}
 				}
+			}
+		}
+		if v := fc.nameAlias[name]; v != nil {
+			// the variable was renamed after the contract was written
+			if a, ok := st.alias[v]; ok {
+				saved := fc.quiet
+				fc.quiet = true
+				defer func() { fc.quiet = saved }()
+				return fc.eval(st, a), true
+			}
+			if t, ok := st.vars[v]; ok {
+				return t, true
 			}
 		}
 		return Term{}, false
@@ -88,6 +100,19 @@ func (w *World) verifyFunc(key string) (fc *FuncCtx) {
 	}()
 	if fc.contract == nil {
 		fc.contract = &Contract{Key: key, Pkg: pkg, Loops: map[int]*LoopContract{}, Opts: map[string]string{}}
+	}
+	if len(fc.contract.Names) > 0 {
+		cur := declaredVars(decl, pkg.TypesInfo, obj)
+		if len(cur) == len(fc.contract.Names) {
+			fc.nameAlias = map[string]*types.Var{}
+			fc.renamed = map[*types.Var]bool{}
+			for i, v := range cur {
+				if v != nil && fc.contract.Names[i] != "_" && fc.contract.Names[i] != v.Name() {
+					fc.nameAlias[fc.contract.Names[i]] = v
+					fc.renamed[v] = true
+				}
+			}
+		}
 	}
 	ast.Inspect(decl, func(n ast.Node) bool {
 		if id, ok := n.(*ast.Ident); ok {
@@ -188,8 +213,11 @@ func (w *World) verifyFunc(key string) (fc *FuncCtx) {
 		}
 		fc.execReturn(end, &ast.ReturnStmt{Return: decl.Body.Rbrace})
 	}
-	if fc.loopOrd != len(fc.contract.Loops) {
-		fc.fail(decl, "contract names %d loops, function has %d", len(fc.contract.Loops), fc.loopOrd)
+	for ord := range fc.contract.Loops {
+		if ord > fc.loopOrd {
+			// a loop contract without a loop proves nothing and assumes nothing; it is reported, not fatal
+			fc.notes = append(fc.notes, fmt.Sprintf("contract names loop %d, the function has %d loops", ord, fc.loopOrd))
+		}
 	}
 	return fc
 }
